@@ -57,6 +57,55 @@ def nofloat(F, res, cg, roots):
         res.add([finding("NOFLOAT", "%s|%s" % (f["path"], what), where(f, line), "%s in %s: a JSON integer routed through a float is rounded to 53 significant bits, so the argument handed to the template is not the one the client sent" % (what, f["path"].split("::")[-1]))])
 
 
+ENCODINGS = [
+    # (what the property documents, library primitive that realises it, extra condition)
+    ("integers: JSON numbers of any 128-bit size", "serde_json::Number::as_i128", None),
+    ("integers: decimal strings", "core::num::<impl i128>::from_str_radix", "radix10"),
+    ("integers: 0x-prefixed 16-byte big-endian hex (two's complement)", "core::num::<impl i128>::from_be_bytes", None),
+    ("integers: the hex form is exactly 16 bytes", "std::convert::TryFrom::try_from|[u8; 16]", None),
+    ("bytes / addresses: hex", "hex::decode", None),
+    ("bytes: base64 envelopes", "base64::Engine::decode", None),
+    ("addresses: bech32", "bech32::decode", None),
+    ("UTxO references: `txid#index`", "core::str::<impl str>::split_once", None),
+    ("UTxO references: the index is a u32", "core::str::<impl str>::parse|u32", None),
+]
+
+
+def encodings(F, res, cg):
+    """ENCODINGS: each textual encoding the property documents is realised by a specific library primitive on the decoding
+    path (the closure of from_json inside tx3_resolver): the primitive must be there, and an integer may be parsed from text only
+    in radix 10 (`from_str_radix(.., 16)` would read the hex form as sign-magnitude: every negative value is rejected or
+    misread).  This decides that the documented decoders are the ones in use, not that they invert the encoding."""
+    reach = [F.fns[p] for p in cg.reachable(["tx3_resolver::interop::from_json"]) if F.fns[p]["crate"] == "tx3_resolver"]
+    calls = []
+    for f in reach:
+        du = None
+        for bi, t in mir.calls(f):
+            calls.append((f, t))
+    for what, prim, cond in ENCODINGS:
+        name, _, garg = prim.partition("|")
+        hits = [(f, t) for f, t in calls if (t.get("callee") or "") == name and (not garg or garg in (t.get("gargs") or []))]
+        key = "tx3_resolver::interop|%s" % what
+        if not hits:
+            res.add([finding("ENCODINGS", key, "crates/tx3-resolver/src/interop.rs", "%s: `%s` is no longer on the decoding path" % (what, name.split("::<")[0]))])
+            continue
+        res.add([ok("ENCODINGS", key, where(hits[0][0], hits[0][1]["line"]), "%s in %s" % (name.split("::")[-1], hits[0][0]["path"].split("::")[-1]))])
+    # radix of every text-to-integer parse
+    for f, t in calls:
+        if (t.get("callee") or "").endswith("::from_str_radix") and len(t["args"]) > 1:
+            c = mir.op_const(t["args"][1])
+            rad = c.get("int") if c else None
+            if rad is None:
+                for o in mir.provenance(f, mir.DefUse(f), t["args"][1]):
+                    if o.kind == "const" and "int" in o.const:
+                        rad = o.const["int"]
+            key = "%s|from_str_radix radix" % f["path"]
+            if rad == 10:
+                res.add([ok("ENCODINGS", key, where(f, t["line"]), "radix 10")])
+            else:
+                res.add([finding("ENCODINGS", key, where(f, t["line"]), "an integer is parsed from text in radix %s: the documented hex form is 16 big-endian bytes in two's complement, which a sign-magnitude parse does not invert (negative values are rejected or misread)" % rad)])
+
+
 def field_use(F, res):
     from ..common import with_helpers
     f = with_helpers(F, "tx3_resolver::trp::parse_resolve_request")
@@ -176,6 +225,7 @@ def run(ctx):
     res.rule("PANIC", "no undischarged panic site in the closure of the request-parsing entry points")
     res.rule("F-FIELDUSE", "every field of ResolveParams is consulted by parse_resolve_request")
     res.rule("S-DECLARED", "arguments are inserted only for declared keys and coerced with the declared type")
+    res.rule("ENCODINGS", "each documented textual encoding is realised by its library primitive on the decoding path; integers are parsed from text in radix 10 only")
     res.rule("NOFLOAT", "no value passes through floating point in the resolver's part of the decoding closure: a 128-bit integer argument does not survive a 53-bit mantissa")
     res.rule("S-TYPES", "from_json has a dedicated arm for each scalar type")
     cg = CallGraph(F)
@@ -189,4 +239,5 @@ def run(ctx):
     declared_only(F, res)
     type_arms(F, res)
     nofloat(F, res, cg, ROOTS + env_roots)
+    encodings(F, res, cg)
     return res
